@@ -31,6 +31,7 @@ def run(facts, tier):
         ("unsigned clamp", coin_rules.unsigned_field_minus_param, 1, "the REQ compaction schedule is clamped to the number of sections (unsigned difference cannot wrap)"),
         ("req region", coin_rules.req_region, 2, "REQ compaction range touches the end of the live region that compact() moves, so shrinking num_items_ removes exactly the compacted items"),
         ("structural triggers", lambda fa: triggers.obligations(fa, ['kll_sketch', 'kll_helper', 'quantiles_sketch', 'req_compactor', 'req_sketch']), 39, "the comparisons that decide when to resize / rebuild / compact / purge / promote keep their reviewed boundary (operator and constants)"),
+        ("level capacity", Q.level_capacity, 3, "every quantiles level that starts empty is reserved to k before it becomes part of a sketch (zip_buffer takes k from the capacity)"),
     ):
         o = f(facts)
         obs += o
